@@ -105,7 +105,7 @@ func (r *Run) Sample(s string) {
 // Violate records a failure of the property's direct predicate on the implementation (at most 5 per kind kept).
 func (r *Run) Violate(kind, input, detail string) {
 	r.violSeen[kind]++
-	if r.violSeen[kind] <= 5 {
+	if r.violSeen[kind] <= 25 {
 		r.Violations = append(r.Violations, Violation{kind, input, detail})
 	}
 }
